@@ -44,6 +44,7 @@ TKillRet ==
                /\ sv[T.name].st = "dead" /\ T.gone
             \/ /\ T.err = "error" /\ T.past                  \* deadline in the past and the process still there
                /\ sv[T.name].cause # "kill"
+               /\ ~sv[T.name].pkd                            \* (a process whose exit had been reported is gone: Kill succeeds)
     /\ sv' = KillRetDo(sv, T.name, T.past) /\ Adv
 
 \* exactly one event per process, carrying its true status
